@@ -5,7 +5,7 @@ interpreter).
   table, assets, key, val: see ForML/Model/SymbolsSexp.lean
   ops:
     (all assets table x head ((key rank)*))
-        -> (all <run> <dask> <pyfunc> <pyfunc2> <valuein> <wf>)
+        -> (all <run> <dask> <pyfunc> <pyfunc2> <valuein> <wf> <applymode>)
     run      ::= ((key val)*)                       values of the sinks by the reference interpreter `run`
     dask     ::= (ok ((key val)*) once) | (error duplicated|notAcyclic|recursion)
                                                     values of the outputs of the linked job; once = every task of
@@ -14,6 +14,7 @@ interpreter).
     pyfunc2  ::= (ok val val) | (error <PfErr>)     two consecutive calls of one Expression object: x, then (input 1)
     valuein  ::= ((key val)*) | none                sinks of the table whose head `head` receives `x` (head = none: skipped)
     wf       ::= true | false                       Table.ranked
+    applymode::= true | false                       Table.applyMode (domain of the single-function runner)
 -/
 import ForML.Model.Sexp
 import ForML.Model.SymbolsSexp
@@ -74,7 +75,8 @@ def stepC02 : Sexp → Sexp
       match vin with
       | none => .atom "bad-op"
       | some vin =>
-        .list [.atom "all", runOut A t, daskOut A t, pyfuncOut A t x, pyfunc2Out A t x, vin, Sexp.ofBool (t.ranked r)]
+        .list [.atom "all", runOut A t, daskOut A t, pyfuncOut A t x, pyfunc2Out A t x, vin, Sexp.ofBool (t.ranked r),
+               Sexp.ofBool (t.applyMode A)]
     | _, _, _, _ => .atom "bad-op"
   | _ => .atom "bad-op"
 
